@@ -789,7 +789,7 @@ class Dir(Gen):
                 if key == "default":
                     add(name, lambda: sm(-2, v(1)))
                 elif key in v5:
-                    add(name, lambda key=key: sm((3, 2), v5[key](), key != "vector_addition"))     # t*v and v*t
+                    add(name, lambda key=key: sm((-3, 2), v5[key](), key != "vector_addition"))     # t*v and v*t
             elif opt == "matrix_scalar_multiply_optimizer":
                 if key == "default":
                     add(name, lambda: sm(-2, B(0)))
@@ -797,7 +797,7 @@ class Dir(Gen):
                     add(name, lambda: sm(-2, mcat["matrix_concat"]()))
                     add(name, lambda: sm(3, mcat["matrix_concat#b"]()))
                 elif key in m35:
-                    add(name, lambda key=key: sm((3, 2), m35[key](), key != "matrix_addition"))    # t*A and A*t
+                    add(name, lambda key=key: sm((-3, 2), m35[key](), key != "matrix_addition"))    # t*A and A*t
             elif opt == "matrix_vector_prod_optimizer":
                 pp = r["pattern"]
                 if key == "default":
@@ -833,14 +833,18 @@ class Dir(Gen):
                 if key == "default":
                     add(name, lambda: un("M", "abs", B(0)))
                 elif key == "matrix_unary":
-                    add(name, lambda: un("M", "sqr", un("M", "abs", A(0))))
+                    # f2(f1(x)): dropping either functor changes the value (1/x^2 on powers of two), and the ORDER
+                    # of the composition is visible when f1 carries a folded negative factor: (-2|x|)^2 != -2|x^2|
+                    add(name, lambda: un("M", "inv", un("M", "sqr", A(1))))
+                    add(name, lambda: un("M", "sqr", sm(-2, un("M", "abs", A(0)))))
                 elif key == "matrix_binary":
                     add(name, lambda: un("M", "abs", bn("M", "div", A(0), A(1))))
             elif opt == "vector_unary_optimizer":
                 if key == "default":
                     add(name, lambda: un("V", "abs", v(1)))
                 elif key == "vector_unary":
-                    add(name, lambda: un("V", "sqr", un("V", "abs", v(1))))
+                    add(name, lambda: un("V", "inv", un("V", "sqr", v(3))))
+                    add(name, lambda: un("V", "sqr", sm(-2, un("V", "abs", v(1)))))
                 elif key == "vector_binary":
                     add(name, lambda: un("V", "abs", bn("V", "div", v(1), v(3))))
                 elif key == "matrix_row_transform":
